@@ -75,6 +75,14 @@ ExtraSels(g) ==
           SRec(l, -1, SAll(SUnion(<<SEdge, SAll(SEdge)>>))),
           SRec(l, -1, SUnion(<<SAll(SEdge), SFields(<<a>>, <<SRec(1, -1, SUnion(<<SMatch, SAll(SEdge)>>))>>)>>))}
          : l \in Limits}
+  \* ExploreInterpretAs where the walk unwraps it: at the root, as the `next` of all / fields / index / range, as what a
+  \* recursion's edge comes back to; twice in a row; and where it does NOT: as a member of a union
+  \cup {SAs(SMatch), SAs(SAll(SMatch)), SAs(SAll(SAll(SMatch))), SAll(SAs(SAll(SMatch))), SAs(SIndex(0, SAll(SMatch))),
+        SAs(SRange(0, 2, SMatch)), SFields(<<a>>, <<SAs(SAll(SMatch))>>), SAs(SFields(<<b, a>>, <<SMatch, SAll(SMatch)>>)),
+        SAs(SAs(SAll(SMatch))), SAll(SAs(SIndex(1, SMatch))), SAs(SSubset(1, 3)),
+        SUnion(<<SAs(SAll(SMatch)), SMatch>>), SAs(SUnion(<<SMatch, SAll(SAll(SMatch))>>))}
+  \cup UNION {{SRec(l, -1, SAll(SAs(SEdge))), SAs(SRec(l, -1, SUnion(<<SMatch, SAll(SEdge)>>))),
+               SRec(l, -1, SAs(SAll(SEdge))), SRec(l, -1, SUnion(<<SMatch, SAll(SAs(SEdge))>>))} : l \in Limits}
   \* a stop-at condition that has to survive the steps of a sequence that are NOT edges
   \cup UNION {{SRec(l, st, SAll(SAll(SEdge))), SRec(l, st, SFields(<<a>>, <<SAll(SEdge)>>)),
                SRec(l, st, SAll(SFields(<<a>>, <<SEdge>>))), SRec(l, st, SUnion(<<SMatch, SAll(SAll(SEdge))>>)),
